@@ -233,3 +233,23 @@ pub fn gen_c08(out: &mut dyn Write, thorough: bool, seed: u64) {
         }
     }
 }
+
+/// C13: the same cases for every feature build; `@` stands for the build's cfg letters
+pub fn gen_c13(out: &mut dyn Write, thorough: bool, seed: u64) {
+    use crate::model::{gen_tag_models, gen_text_tags};
+    let mut r = Rng::new(seed ^ 0xC13);
+    let opts = GenOpts { windows: &[1, 2, 3, 4, 5, 8, 9, 40], max_ngrams: 6, max_words: 4, max_word_len: 12 };
+    let n_models = if thorough { 3000 } else { 300 };
+    for i in 0..n_models {
+        let (mut m, alpha) = gen_model(&mut r, &opts);
+        let with_tags = i % 2 == 0;
+        if with_tags {
+            gen_tag_models(&mut r, &mut m, &alpha, 3);
+        }
+        let mt = m.to_text();
+        for _ in 0..4 {
+            let text = if with_tags { gen_text_tags(&mut r, &m, &alpha, 20) } else { gen_text(&mut r, &m, &alpha, 30) };
+            writeln!(out, "F @ {mt} {} {}", if with_tags { 1 } else { 0 }, hexs(&text)).unwrap();
+        }
+    }
+}
